@@ -17,7 +17,8 @@ INC_DIRS = ["", "src/kernel/system", "src/kernel/memory", "src/kernel/field", "s
 CXX = "g++"
 BASE_FLAGS = ["-std=gnu++11", "-O2", "-march=native", "-Wall", "-Wno-error", "-DNDEBUG", "-UDEBUG",
               "-DHAVE_CONFIG_H", "-D" + GUARD]
-LIB_SOURCES_EXCLUDE = {"src/dummy.C", "src/kernel/gmp++/gmp++_int.C"}
+LIB_SOURCES_EXCLUDE = {"src/dummy.C", "src/kernel/gmp++/gmp++_int.C",
+                       "src/library/vector/givvector.C", "src/library/matrix/givmatrix.C"}  # not part of libgivaro (Makefile.am)
 
 
 def log(*a):
@@ -91,10 +92,11 @@ def build_repo_lib(extra_flags=(), tag="std"):
     hook guard on.  Cached by the hash of every header/source under /repo/src."""
     srcs = repo_sources()
     key = file_hash(srcs, " ".join(BASE_FLAGS + list(extra_flags)) + tag)
-    d = mkdir(os.path.join(CACHE, "lib-" + key))
-    lib = os.path.join(d, "libgivaro_verif.a")
+    final = os.path.join(CACHE, "lib-" + key)
+    lib = os.path.join(final, "libgivaro_verif.a")
     if os.path.exists(lib):
         return lib, ""
+    d = mkdir(os.path.join(CACHE, "tmp-lib-%s-%d" % (key, os.getpid())))
     cs = []
     for p in srcs:
         rel = os.path.relpath(p, REPO)
@@ -121,16 +123,20 @@ def build_repo_lib(extra_flags=(), tag="std"):
     if logs:
         shutil.rmtree(d, ignore_errors=True)
         return None, "\n".join(logs)
-    rc, out = sh(["ar", "rcs", lib + ".tmp"] + objs)
+    rc, out = sh(["ar", "rcs", os.path.join(d, "libgivaro_verif.a")] + objs)
     if rc != 0:
+        shutil.rmtree(d, ignore_errors=True)
         return None, out
-    os.rename(lib + ".tmp", lib)
     for o in objs:
         try:
             os.remove(o)
         except OSError:
             pass
-    prune_cache("lib-", keep=3)
+    try:
+        os.rename(d, final)
+    except OSError:
+        shutil.rmtree(d, ignore_errors=True)   # somebody else finished first
+    prune_cache("lib-", keep=6)
     return lib, ""
 
 
@@ -155,16 +161,20 @@ def build_harness(src, extra_flags=(), link_lib=True, deps=(), timeout=900, name
     b = os.path.join(d, name)
     if os.path.exists(b):
         return b, ""
-    cmd = [CXX] + BASE_FLAGS + list(extra_flags) + inc_flags() + ["-I" + os.path.join(ROOT, "harness"), srcp, "-o", b + ".tmp"]
+    tmpb = "%s.tmp%d" % (b, os.getpid())
+    cmd = [CXX] + BASE_FLAGS + list(extra_flags) + inc_flags() + ["-I" + os.path.join(ROOT, "harness"), srcp, "-o", tmpb]
     if lib:
         cmd += [lib]
     cmd += ["-lgmpxx", "-lgmp", "-lpthread"]
     rc, out = sh(cmd, timeout=timeout)
     if rc != 0:
-        shutil.rmtree(d, ignore_errors=True)
+        try:
+            os.remove(tmpb)
+        except OSError:
+            pass
         return None, out
-    os.rename(b + ".tmp", b)
-    prune_cache("h-%s-" % name, keep=3)
+    os.rename(tmpb, b)
+    prune_cache("h-%s-" % name, keep=4)
     return b, out
 
 
